@@ -25,12 +25,14 @@ def tf_seconds(tf):
 
 def base_for(tfs):
     """a naive datetime whose zone-free epoch seconds are a multiple of every timeframe"""
-    L = 86400
+    L = 60
     for t in tfs:
         s = tf_seconds(t)
         if s:
             L = L * s // gcd(L, s)
-    k = (1_685_577_600 + L - 1) // L  # around 2023-06-01
+    # around 2023-06-01 11:00 -- NOT a midnight unless a timeframe asks for it: a timeframe that does not
+    # divide the day (T7, H5, S45) has its grid anchored at the epoch, not at the day's start
+    k = (1_685_617_200 + L - 1) // L
     return EPOCH + timedelta(seconds=k * L)
 
 
